@@ -242,6 +242,7 @@ pub fn workload(rng: &mut Rng, tier: Tier) -> Workload {
         unsupported: 0,
         placeholder_strings: false,
         risky_specials: rng.chance(1, 200),
+        layout_variants: false,
     };
     let expr = gen::expression(rng, &cfg);
     let n_files = rng.range(1, 8) as usize;
